@@ -73,7 +73,8 @@ INFO = {
 }
 
 CONTENT_TYPES = ('text/html; charset=utf-8', 'text/html', 'image/svg+xml', 'application/vnd.ms-excel', 'application/octet-stream',
-                 'text/plain;charset=ISO-8859-1', 'application/xhtml+xml; q=1', 'TEXT/HTML')
+                 'text/plain;charset=ISO-8859-1', 'application/xhtml+xml; q=1', 'TEXT/HTML',
+                 'text/html\r\n\tcharset=utf-8', 'text/css, text/css', 'text/html ; charset=utf-8', 'text/html\r\n ;charset=x')
 _seq = [0]
 
 
@@ -201,6 +202,8 @@ def gen_exchanges(tape, phase, n, faults_on, same_pool):
                 m = 'GET'       # the stored response was generated for a GET
         else:
             path = '/p%d/e%d' % (phase, i)
+            if tape.chance(1, 10, 'long_uri'):
+                path += '?q=' + 'x' * tape.choice((1100, 1500, 3000), 'long_uri.len')       # WARC-Target-URI longer than 1 KiB
         body = None
         if m == 'POST':
             rng = tape.subrng('post.rng')
@@ -348,12 +351,11 @@ def run_phase(tape, r, sandbox, phase, params, exs, url_table, timeout=60.0):
 
 
 def media_type(ct):
+    """type/subtype at the start of the field value (RFC 7231 3.1.1.1 tokens); '-' if there is none."""
     if ct is None:
         return '-'
-    t = ct.split(';')[0].strip()
-    if re.fullmatch(r"[!#$%&'*+\-.^_`|~0-9A-Za-z]+/[!#$%&'*+\-.^_`|~0-9A-Za-z]+", t):
-        return t
-    return '-'
+    m = re.match(r"\s*([!#$%&'*+\-.^_`|~0-9A-Za-z]+/[!#$%&'*+\-.^_`|~0-9A-Za-z]+)", ct)
+    return m.group(1) if m else '-'
 
 
 def check_files(r, sandbox, phases):
